@@ -100,7 +100,35 @@ FIRST.update({
 })
 # round 3 (E/F): filled from seeded/ROUND3_FIRST_TRIALS.log (first trial = tools/psweep.py before any change prompted by the round)
 ROUND3 = os.path.join(ROOT, "ROUND3_FIRST_TRIALS.log")
-ROUND3_NOTES = {}
+ROUND3_NOTES = {
+    # what was generalised after the first trial of round 3 (only consulted for changes the first trial missed)
+    "C01-E": "c04's generated '*'-precision family and c19's star cases already evaluate '%.*s'; c01's grid gained every conversion x '*' width/precision",
+    "C01-F": "c12's mode matrix writes values with hidden / forced-visible / inherited / computed fields (c05's fancy()) instead of plain literals, also under -m",
+    "C02-E": "c02 gained a call-binding matrix: 0-4 parameters x every mask of defaults x every positional count x every subset bound by name in both orders",
+    "C02-F": "c02 gained a scope-reference matrix: binder i's value mentions binder j for every pair, in every scope kind incl. object-comprehension locals before/after the field",
+    "C03-F": "conservation leg gained programs in which one heap object is referenced from 255..70000 places (limits of 8/16-bit counters)",
+    "C04-E": "(cross-property) c13 reports it as file_loaded_more_than_once; c04 itself has no import workload - see section 8",
+    "C04-F": "laziness table rows for every kind of container a lazy builtin walks (strings and objects, not only arrays)",
+    "C05-F": "c12's mode matrix runs into output targets that already exist with longer / shorter / empty content (and an unrelated file that must stay)",
+    "C06-F": "printing leg gained every power of two and of ten with both neighbours and negated",
+    "C07-E": "prior-use leg observes operands and the combination in every way, incl. calling each one-argument method",
+    "C07-F": "genrmkey fields may observe the layers to the left (\"k\" in super, guarded super.k) outside the removal",
+    "C08-E": "unordered arrays must error through every entry point (__compare_array, __array_*), and reflexive pairs are also run on one aliased value",
+    "C08-F": "operands reach the operators in rotating forms: locals, inline literals, literal on one side only, parameters, elements, fields",
+    "C10-E": "cyclic-argument sweep already covers manifestPython(cyclic object); deep_manifestPython gained an object tower next to the array tower",
+    "C10-F": "c10 gained very large limits (10^7 .. 2^64-1) through the API and -s, one child per run",
+    "C11-E": "matrix library gained failures that arise when an aliased value is compared (functions inside shared arrays / objects)",
+    "C11-F": "c11 gained histories through rsjsonnet_front::Session over real files (import/importstr/importbin of the same files in every order)",
+    "C12-E": "failing runs with -o: the file must not be created, and an existing one must keep its exact content",
+    "C12-F": "mode matrix: the value also reaches the modes as the result of a top-level function (defaults, no parameters, --tla-code, --tla-str)",
+    "C13-E": "c13 gained importer kinds: file / -e / stdin / --ext-code / --tla-code / code files x relative, absolute, -J-only paths x 0-2 -J",
+    "C13-F": "same importer-kind leg: code files resolve against their own directory and are loaded once when also imported",
+    "C15-F": "the syntactic generator emits every list-valued element (object-comprehension locals, local binds) in lengths 0-3+",
+    "C16-F": "19 templates whose error span covers several lines and straddles the lines 9|10, 99|100, 999|1000",
+    "C18-E": "every 6th case draws its strings from an ASCII character and the code points sharing its low byte / low 16 bits",
+    "C20-E": "base64Decode of arbitrary payloads incl. valid multi-byte UTF-8 text: one code point per decoded byte",
+    "C20-F": "codec inputs around every power of two up to 65536 with a multi-byte (or broken) sequence straddling the boundary",
+}
 
 
 def needs(notes):
